@@ -545,6 +545,10 @@ pub fn darray_group_specs(cfg: &Cfg) -> Vec<GroupSpec> {
     let partial = Group::Stepped { count: 100, step: 3 };
     let partial_head = Group::Span { count: 33, span: 65535 };
     let partial_sparse = Group::Span { count: 33, span: 70000 };
+    // partial last groups exactly at the dense/sparse threshold whose last one is a sub-group head
+    let partial_head_eq = Group::Span { count: 33, span: 65536 };
+    let partial_head_eq2 = Group::Span { count: 65, span: 65536 };
+    let partial_head_hi = Group::Span { count: 97, span: 65537 };
     let mut out = Vec::new();
     let mut push = |groups: Vec<Group>, rng: &mut Rng| {
         out.push(GroupSpec { groups, lead: rng.usize_below(200), gap: 1 + rng.usize_below(300), tail: rng.usize_below(130), seed: rng.u64() });
@@ -559,7 +563,7 @@ pub fn darray_group_specs(cfg: &Cfg) -> Vec<GroupSpec> {
     }
     let kinds = [dense, sparse, t_lo, t_eq, t_hi, dense2, sparse2];
     // all 2-group and 3-group sequences over the main kinds, each followed by every kind of last group
-    let lasts = [None, Some(partial), Some(partial_head), Some(partial_sparse)];
+    let lasts = [None, Some(partial), Some(partial_head), Some(partial_sparse), Some(partial_head_eq), Some(partial_head_eq2), Some(partial_head_hi)];
     let mut li = 0;
     for a in kinds {
         for b in kinds {
@@ -591,7 +595,7 @@ pub fn darray_group_specs(cfg: &Cfg) -> Vec<GroupSpec> {
         }
     }
     // single groups and partial-only inputs
-    for g in [dense, sparse, t_lo, t_eq, t_hi, partial, partial_head, partial_sparse] {
+    for g in [dense, sparse, t_lo, t_eq, t_hi, partial, partial_head, partial_sparse, partial_head_eq, partial_head_eq2, partial_head_hi] {
         push(vec![g], &mut rng);
     }
     // random mixtures
